@@ -221,6 +221,15 @@ class Symb(object):
                 return -self.lin(n['ch'][0])
             if n.get('op') == '+':
                 return self.lin(n['ch'][0])
+        if k == 'CXXOperatorCallExpr' and n.get('op') in ('+', '-') and len(n['ch']) == 3:
+            # iterator / pointer-like class arithmetic: it + n, it - n, it - it
+            l, r = self.lin(n['ch'][1]), self.lin(n['ch'][2])
+            return l + r if n['op'] == '+' else l - r
+        if k in ('CXXConstructExpr', 'CXXTemporaryObjectExpr') and len([c_ for c_ in n['ch'] if fn.N(c_)['k'] != 'CXXDefaultArgExpr']) == 1:
+            rec = (n.get('rec') or '')
+            ov = (n.get('ov') or [''])
+            if rec and rec.split('<')[0] in ov[0]:          # copy / move construction keeps the value
+                return self.lin([c_ for c_ in n['ch'] if fn.N(c_)['k'] != 'CXXDefaultArgExpr'][0])
         if k in ('CallExpr', 'CXXMemberCallExpr') and not n.get('virt') and getattr(self, '_hdepth', 0) < 3:
             # expression helper of the same unit: `T f(params) { return E; }` with unmodified parameters stands for E over the arguments
             hc = fn._helper_ctx(i) if hasattr(fn, '_helper_ctx') else None
